@@ -293,3 +293,66 @@ def replay(pid, path, spec):
         print("no replay support for %s" % pid)
         return 2
     return fn(path)
+
+
+# ---- interpreters and sanitizers -----------------------------------------------------------
+
+MIRI_BASE_FLAGS = "-Zmiri-symbolic-alignment-check"
+
+
+def classify_miri(stderr):
+    """Returns (kind, first error line, first in-repo / generated frame) or None when Miri
+    reported nothing."""
+    lines = (stderr or "").splitlines()
+    for i, l in enumerate(lines):
+        if "Undefined Behavior" in l or "memory leaked" in l or l.startswith("error: unsupported operation") \
+                or "error: abnormal termination" in l or "error: deadlock" in l or "error: the evaluated program" in l:
+            if "unsupported operation" in l:
+                return ("unsupported", l.strip(), "")
+            frame = ""
+            for m in lines[i:i + 60]:
+                ms = m.strip()
+                if ("/repo/" in ms or "/verif/" in ms) and ("-->" in ms or "at " in ms):
+                    frame = ms
+                    if "/repo/" in ms:
+                        break
+            return ("ub" if "Undefined Behavior" in l else "leak" if "leaked" in l else "abort", l.strip(), frame)
+    return None
+
+
+def miri_prepare(package, cwd=HARNESS, flags=""):
+    """Builds `package` for Miri once (a run with arguments that do nothing)."""
+    env = dict(ENV)
+    env["MIRIFLAGS"] = (MIRI_BASE_FLAGS + " " + flags).strip()
+    with Lock("cargo-miri"):
+        rc, out, err = sh(["cargo", "+nightly", "miri", "run", "--offline", "-p", package, "--", "noop"],
+                          cwd=cwd, env=env, timeout=1800)
+    if "Finished" not in (err or "") and "Running" not in (err or ""):
+        raise Inconclusive("Miri build of %s failed: %s" % (package, "\n".join((err or "").splitlines()[-20:])))
+
+
+def miri_job(package, args, flags="", cwd=HARNESS):
+    env = dict(ENV)
+    env["MIRIFLAGS"] = (MIRI_BASE_FLAGS + " " + flags).strip()
+    args = [str(a) for a in args]
+    return (" ".join(args), ["cargo", "+nightly", "miri", "run", "--offline", "-q", "-p", package, "--"] + [str(a) for a in args], cwd, env)
+
+
+def parse_json_tail(text):
+    """Last JSON object printed on stdout."""
+    text = text or ""
+    j = text.rfind("}")
+    if j < 0:
+        return None
+    depth = 0
+    for i in range(j, -1, -1):
+        if text[i] == "}":
+            depth += 1
+        elif text[i] == "{":
+            depth -= 1
+            if depth == 0:
+                try:
+                    return json.loads(text[i:j + 1])
+                except Exception:
+                    return None
+    return None
